@@ -1,0 +1,160 @@
+//go:build verif
+
+// Round 5, area I: contracts for apps/nsqd (C05 C06): start-up order and shutdown of the daemon. Comment-only file.
+// Assumed library contracts and the STATED START-UP ASSUMPTION (PersistMetadata without the lock): .trusted/r5I.spec.
+// Life-cycle records r5ILoads / r5IExits / r5INews: nsqd/zz_contracts_r5I_verif.go.
+//
+// logFatal (one line: lg.LogFatal -> log line, os.Exit(1)) has NO contract of its own: a function that never returns cannot carry one
+// (the vacuity guard demands a reachable return). It is inlined at every call site down to os.Exit, whose assumed contract
+// (hfile.spec: "does not return") ends the path - so "a failure is fatal" is checked at the callers: on every path that RETURNS
+// from Init / Start the failing call did not fail.
+
+package main
+
+// p.nsqd is written once, by Init (checked by the SSA sweep); Start / Stop / Context read the daemon Init stored.
+//@ constructors (*main.program).Init
+//@ immutable program.nsqd
+
+// The goroutine Start spawns: how many, and what had happened before the `go` statement.
+//@ ghost r5IMainSpawns int
+//@ ghost r5ISpawnSawLoads int
+//@ ghost r5ISpawnSawPersists int
+//@ ghost r5ISpawnSawPersistErr error
+//@ ghostgroup r5IMainSpawns, r5ISpawnSawLoads, r5ISpawnSawPersists, r5ISpawnSawPersistErr
+
+// Start (C05 "start-up: load metadata, recreate topics/channels/paused flags, then start pumps"; C06 "after a SIGKILL at any point nsqd
+// starts again on that data path ... the set of topics and channels is one the daemon actually passed through"):
+//  * the metadata file is LOADED first, exactly once, on the daemon Init built; a failed load is fatal (Start does not return, nothing is
+//    persisted over the file that failed to load, Main is never started);
+//  * only THEN is the (re-created) registry persisted, exactly once; a failed persist is fatal;
+//  * only then is the goroutine that runs Main - listeners, lookupd loop, queue scan: everything that serves clients - spawned, once.
+//@ func (p *program) Start() error
+//@   props C05 C06
+//@   requires p != nil
+//   (call protocol: svc.Run calls Start after Init returned nil; Init/[daemon-built])
+//@   requires[initialised] p.nsqd != nil && p.nsqd.ci != nil
+//@   ensures[loaded-once-on-this-daemon] r5ILoads == old(r5ILoads) + 1 && r5ILoadOf == p.nsqd
+//@   ensures[load-failure-is-fatal] r5ILoadErr == nil
+//@   ensures[load-before-persist] r5ILoadSawPersists == old(jPersistCalls)
+//@   ensures[persisted-once] jPersistCalls == old(jPersistCalls) + 1
+//@   ensures[persist-failure-is-fatal] jPersistErr == nil && gfsRenameErr == nil
+//@   ensures[main-started-once] r5IMainSpawns == old(r5IMainSpawns) + 1
+//@   ensures[main-started-last] r5ISpawnSawLoads == old(r5ILoads) + 1 && r5ISpawnSawPersists == old(jPersistCalls) + 1 && r5ISpawnSawPersistErr == nil
+//@   ensures[main-not-run-by-start] r5IMains == old(r5IMains) && r5IExits == old(r5IExits)
+//@   ensures[ok] result == nil
+
+// The goroutine: runs Main on the daemon; if Main fails the daemon is stopped through Stop (= the Once) and the process exits with
+// status 1 - so the function RETURNS only after a Main that reported no error, and then nothing was stopped here.
+//@ func (p *program) Start$1()
+//@   props C05 C06
+//@   requires p != nil && p.nsqd != nil
+//@   onspawn r5IMainSpawns := r5IMainSpawns + 1
+//@   onspawn r5ISpawnSawLoads := r5ILoads
+//@   onspawn r5ISpawnSawPersists := jPersistCalls
+//@   onspawn r5ISpawnSawPersistErr := jPersistErr
+//@   ensures[main-of-this-daemon-once] r5IMains == old(r5IMains) + 1 && r5IMainOf == p.nsqd
+//@   ensures[returns-only-after-a-clean-main] r5IMainErr == nil
+//@   ensures[clean-main-stops-nothing] r5IOnceDos == old(r5IOnceDos) && r5IExits == old(r5IExits)
+
+// Stop (C05 "a graceful shutdown": svc.Run calls it on SIGINT / SIGTERM; the Main goroutine calls it when a listener fails): the daemon's
+// Exit is reached ONLY through p.once - one Do per Stop, on this program's Once, and Stop itself never calls Exit - so however many
+// times and from however many goroutines Stop is called, Exit runs once (sync.Once, assumed) .
+//@ func (p *program) Stop() error
+//@   props C05 C06
+//@   requires p != nil
+//@   ensures[exit-only-through-the-once] r5IOnceDos == old(r5IOnceDos) + 1 && r5IOnceLast == &p.once
+//@   ensures[never-exits-directly] r5IExits == old(r5IExits)
+//@   ensures[ok] result == nil
+//@   modifies r5IOnceDos, r5IOnceLast
+
+// The function the Once runs: exactly one Exit, on the daemon Init built.
+//@ func (p *program) Stop$1()
+//@   props C05 C06
+//@   requires p != nil
+//   (call protocol: Stop is called after Init returned nil; Init/[daemon-built] gives the lock object, NSQD.dl / DirLock.f are immutable)
+//@   requires[initialised] p.nsqd != nil && p.nsqd.dl != nil && p.nsqd.dl.f != nil
+//@   ensures[one-exit-of-this-daemon] r5IExits == old(r5IExits) + 1 && r5IExitOf == old(p.nsqd)
+
+// Handle: every signal svc.Run was asked to watch (SIGINT, SIGTERM) stops the service.
+//@ func (p *program) Handle(s os.Signal) error
+//@   props C05
+//@   ensures[every-signal-stops] result == svc.ErrStop && result != nil
+//@   modifies
+//@   nochan
+
+//@ func (p *program) Context() context.Context
+//@   props C05
+//@   requires p != nil && p.nsqd != nil
+//@   ensures[the-daemons-context] result == p.nsqd.ctx
+//@   modifies
+//@   nochan
+
+// main: one fresh program is handed to svc.Run, once, watching SIGINT and SIGTERM.
+//@ func main()
+//@   props C05 C06
+//@   ensures[runs-one-fresh-program] r5ISvcRuns == old(r5ISvcRuns) + 1 && dyntype(r5ISvcService) == typetag("*program") && fresh(unbox(r5ISvcService, "*program"))
+//@   ensures[watches-int-and-term] len(r5ISvcSignals) == 2
+
+// ---- Init: options, then the daemon (which takes the data-path lock) -------------------------------------------------------------------
+// nsqdFlagSet defines the flags; the two names Init looks up are defined, "version" as a bool flag. Nothing that exists is written.
+//@ func nsqdFlagSet(opts *nsqd.Options) *flag.FlagSet
+//@   props C06
+//@   requires opts != nil
+//@   ensures[a-new-flag-set] result != nil && fresh(result)
+//@   ensures[version-and-config-defined] setin(r5IBoolFlags, r5IFlagKey(result, "version")) && setin(r5IFlags, r5IFlagKey(result, "version")) && setin(r5IFlags, r5IFlagKey(result, "config"))
+//   (elems(string): the list of experiment names is appended to a local slice inside a loop - the engine does not see that the backing
+//    array is the function's own)
+//@   modifies elems(string), r5IFlags, r5IBoolFlags
+//@   keeps r5IResolves, r5IResolvedOpts, r5IResolvedFlags
+//@   nochan
+//@   loop 0
+//@     invariant[flags-defined] flagSet != nil && fresh(flagSet) && setin(r5IBoolFlags, r5IFlagKey(flagSet, "version")) && setin(r5IFlags, r5IFlagKey(flagSet, "version")) && setin(r5IFlags, r5IFlagKey(flagSet, "config"))
+
+// Init (C06 "A second nsqd pointed at a data path that is in use refuses to start"; C05/C06 start-up order): the options are resolved
+// (defaults < config file < flags) exactly once and BEFORE nsqd.New is called, New is called exactly once with that options object, a
+// failure of New - in particular a refused data-path lock - is fatal (Init does not return), and the daemon stored in p.nsqd is the one
+// New returned: it exists, and it holds the exclusive lock on its data path (New/[daemon-only-with-the-lock], [lock-object-kept]).
+// No metadata or queue file is touched here.
+//@ func (p *program) Init(env svc.Environment) error
+//@   props C05 C06
+//@   requires p != nil
+//   (environment: the operating system passes at least the program name)
+//@   requires[program-name-present] len(os.Args) >= 1
+//@   ensures[options-resolved-once] r5IResolves == old(r5IResolves) + 1
+//@   ensures[daemon-built-once-from-the-resolved-options] r5INews == old(r5INews) + 1 && r5INewSawResolves == old(r5IResolves) + 1 && dyntype(r5IResolvedOpts) == typetag("*nsqd.Options") && unbox(r5IResolvedOpts, "*nsqd.Options") == r5INewOpts
+//@   ensures[daemon-built] result == nil && p.nsqd != nil && p.nsqd.dl != nil && p.nsqd.dl.f != nil
+//@   ensures[data-path-lock-held] gFlocks == old(gFlocks) + 1 && gFlockErr == nil && gDirOpenErr == nil && gFlockHow == dirlock.gLockExNb() && p.nsqd.dl.f == gDirOpenFile
+//   (nsqd.New has no frame, so what survives it is what its postconditions say: no metadata / queue file opened, written or renamed)
+//@   ensures[no-metadata-or-queue-file-touched] gfsOpens == old(gfsOpens) && gfsWrites == old(gfsWrites) && gfsRenames == old(gfsRenames) && dqCalls == old(dqCalls)
+
+// The config-file translation helpers: each writes its own receiver only.
+//@ func (t *tlsRequiredOption) Set(s string) error
+//@   props C06
+//@   requires t != nil
+//@   modifies *t
+//@   keeps r5IResolves, r5IResolvedOpts, r5IResolvedFlags
+//@   nochan
+//@ func (t *tlsRequiredOption) String() string
+//@   props C06
+//@   requires t != nil
+//@   modifies
+//@   keeps r5IResolves, r5IResolvedOpts, r5IResolvedFlags
+//@   nochan
+//@ func (t *tlsMinVersionOption) Set(s string) error
+//@   props C06
+//@   requires t != nil
+//@   modifies *t
+//@   keeps r5IResolves, r5IResolvedOpts, r5IResolvedFlags
+//@   nochan
+//@ func (t *tlsMinVersionOption) Get() interface{}
+//@   props C06
+//@   requires t != nil
+//@   modifies
+//@   keeps r5IResolves, r5IResolvedOpts, r5IResolvedFlags
+//@   nochan
+// Validate: translates three settings of the config-file map in place (a setting that does not parse is fatal); nothing else is written.
+//@ func (cfg config) Validate()
+//@   props C06
+//@   modifies mapof(cfg)
+//@   keeps r5IResolves, r5IResolvedOpts, r5IResolvedFlags
+//@   nochan
